@@ -47,6 +47,7 @@ type Job struct {
 	ThresholdMs int         `json:"threshold_ms"` // the "short" threshold
 	Workers     int         `json:"workers"`
 	StepWaitMs  int         `json:"step_wait_ms"`
+	StretchMs   int         `json:"stretch_ms"` // threshold used for time-stretched timer schedules (0 = off)
 }
 
 type Event map[string]any
@@ -70,6 +71,7 @@ type Result struct {
 type arrival struct {
 	proc  string // prim | sec
 	point string
+	epoch int // number of releases of proc before this parking; stale notices are ignored
 }
 
 type call struct {
@@ -78,9 +80,12 @@ type call struct {
 	start     time.Time
 	threshold time.Duration
 	free      bool // free-run: gates do not park
+	timed     bool // real-time claims (late) are valid: the secondary was never held before its timer was created
+	holdBegin bool // park the secondary at its first statement (only when the timer cannot matter)
 	arrived   chan arrival
 	release   map[string]chan string // per process; value = outcome for Exec gates
 	parked    map[string]string      // proc -> point it is parked at
+	epoch     map[string]int         // proc -> number of releases so far
 	done      map[string]bool        // proc finished its last point
 }
 
@@ -91,10 +96,23 @@ func (c *call) log(ev string, kv ...any) {
 		e[kv[i].(string)] = kv[i+1]
 	}
 	if ev != "Start" && ev != "Cancel" && ev != "Return" {
-		e["early"] = time.Since(c.start) < c.threshold/2
+		el := time.Since(c.start)
+		e["early"] = el < c.threshold/2
+		// pre: certainly before the threshold; late: the threshold certainly elapsed (slack 0.4*T).
+		// late is only claimed when the secondary's timer was created at call start (no begin gate).
+		e["pre"] = el < c.threshold-c.threshold/10
+		e["late"] = c.timed && el >= c.threshold+slack(c.threshold)
 	}
 	c.events = append(c.events, e)
 	c.mu.Unlock()
+}
+
+// slack: how long after the threshold a timer-driven wake-up may take before it counts as missing
+func slack(thr time.Duration) time.Duration {
+	if s := thr * 4 / 10; s > 150*time.Millisecond {
+		return s
+	}
+	return 150 * time.Millisecond
 }
 
 // gate: called by a goroutine of the code under test; logs, tells the controller, parks.
@@ -107,11 +125,12 @@ func (c *call) gate(proc, point string, logEv string, kv ...any) string {
 	if !free {
 		c.parked[proc] = point
 	}
+	ep := c.epoch[proc]
 	c.mu.Unlock()
 	if free {
 		return ""
 	}
-	c.arrived <- arrival{proc, point}
+	c.arrived <- arrival{proc, point, ep}
 	return <-c.release[proc]
 }
 
@@ -138,8 +157,17 @@ func hook(point string, key uint32) {
 		return
 	}
 	switch {
-	case point == "fallback.primary.signalled" || point == "fallback.primary.failed_signalled":
-		c.gate("prim", "signalled", "PrimSignalled")
+	case point == "fallback.primary.signalled":
+		c.gate("prim", "signalled", "PrimSignalled", "k", "done")
+	case point == "fallback.primary.failed_signalled":
+		c.gate("prim", "signalled", "PrimSignalled", "k", "failed")
+	case point == "fallback.secondary.begin":
+		c.mu.Lock()
+		hold := c.holdBegin
+		c.mu.Unlock()
+		if hold {
+			c.gate("sec", "begin", "")
+		}
 	case point == "fallback.primary.queued":
 		c.gate("prim", "queued", "PrimQueued")
 		c.markDone("prim")
@@ -184,8 +212,9 @@ func (w *worker) Exec(ctx context.Context, qCtx *query_context.Context) error {
 	// Exec gate: always parks (also in free-run mode the controller decides the outcome)
 	c.mu.Lock()
 	c.parked[w.name] = "exec"
+	ep := c.epoch[w.name]
 	c.mu.Unlock()
-	c.arrived <- arrival{w.name, "exec"}
+	c.arrived <- arrival{w.name, "exec", ep}
 	o = <-c.release[w.name]
 	switch o {
 	case "ans":
@@ -225,31 +254,44 @@ func newPlugin(standby bool, thresholdMs int) (interface {
 // ---------------------------------------------------------------------------
 
 type runner struct {
-	c        *call
-	stepWait time.Duration
-	retCh    chan string
-	returned bool
-	result   string
-	cancel   context.CancelFunc
-	pending  map[string]string // proc -> outcome noted by PrimFinish/SecFinish but Exec gate not yet released
-	arrivals map[string][]string
+	c             *call
+	stepWait      time.Duration
+	retCh         chan string
+	returned      bool
+	result        string
+	cancel        context.CancelFunc
+	beginReleased bool
+	pending       map[string]string // proc -> outcome noted by PrimFinish/SecFinish but Exec gate not yet released
+	arrivals      map[string][]arrival
 }
 
 // waitArrival waits until proc arrives at some gate; returns the point.
+// Notices of parkings that have already been released (epoch) are ignored.
 func (r *runner) waitArrival(proc string, d time.Duration) (string, bool) {
-	if q := r.arrivals[proc]; len(q) > 0 {
-		r.arrivals[proc] = q[1:]
-		return q[0], true
+	fresh := func(a arrival) bool {
+		r.c.mu.Lock()
+		defer r.c.mu.Unlock()
+		return a.epoch >= r.c.epoch[a.proc]
+	}
+	for len(r.arrivals[proc]) > 0 {
+		a := r.arrivals[proc][0]
+		r.arrivals[proc] = r.arrivals[proc][1:]
+		if fresh(a) {
+			return a.point, true
+		}
 	}
 	t := time.NewTimer(d)
 	defer t.Stop()
 	for {
 		select {
 		case a := <-r.c.arrived:
+			if !fresh(a) {
+				continue
+			}
 			if a.proc == proc {
 				return a.point, true
 			}
-			r.arrivals[a.proc] = append(r.arrivals[a.proc], a.point)
+			r.arrivals[a.proc] = append(r.arrivals[a.proc], a)
 		case res := <-r.retCh:
 			r.noteReturn(res)
 		case <-t.C:
@@ -283,17 +325,30 @@ func (r *runner) isParked(proc string) string {
 func (r *runner) releaseProc(proc, val string) {
 	r.c.mu.Lock()
 	delete(r.c.parked, proc)
+	r.c.epoch[proc]++
 	r.c.mu.Unlock()
 	r.c.release[proc] <- val
+}
+
+// secAtBegin: the secondary is held at its first statement (begin gate) and has not been released yet.
+func (r *runner) secAtBegin() bool {
+	r.c.mu.Lock()
+	hold := r.c.holdBegin
+	r.c.mu.Unlock()
+	if !hold || r.beginReleased {
+		return false
+	}
+	r.beginReleased = true
+	if r.isParked("sec") == "begin" {
+		return true // its notice becomes stale with the release and is ignored
+	}
+	pt, ok := r.waitArrival("sec", r.stepWait)
+	return ok && pt == "begin"
 }
 
 // ensureAtExec makes sure proc has arrived at its Exec gate.
 func (r *runner) ensureAtExec(proc string) bool {
 	if r.isParked(proc) == "exec" {
-		// consume a queued arrival notice if any
-		if q := r.arrivals[proc]; len(q) > 0 && q[0] == "exec" {
-			r.arrivals[proc] = q[1:]
-		}
 		return true
 	}
 	pt, ok := r.waitArrival(proc, r.stepWait)
@@ -302,8 +357,18 @@ func (r *runner) ensureAtExec(proc string) bool {
 
 func runOne(idx int, b *Behaviour, kind string, job *Job, rng *rand.Rand) Result {
 	thrMs := 30000
+	hasTimerStep := false
+	for _, st := range b.Steps {
+		if st.A == "TimerFire" {
+			hasTimerStep = true
+		}
+	}
+	stretch := kind == "replay" && hasTimerStep && job.StretchMs > 0
 	if b.TimerMay {
 		thrMs = job.ThresholdMs
+		if stretch {
+			thrMs = job.StretchMs
+		}
 	}
 	plug, err := newPlugin(b.Standby, thrMs)
 	if err != nil {
@@ -318,7 +383,10 @@ func runOne(idx int, b *Behaviour, kind string, job *Job, rng *rand.Rand) Result
 		arrived:   make(chan arrival, 16),
 		release:   map[string]chan string{"prim": make(chan string, 1), "sec": make(chan string, 1)},
 		parked:    map[string]string{},
+		epoch:     map[string]int{},
 		done:      map[string]bool{},
+		timed:     b.TimerMay && kind == "replay", // real-time claims only in steered runs (re-confirmed serially when they reject)
+		holdBegin: kind == "replay" && !b.TimerMay,
 	}
 	callsMu.Lock()
 	calls[qCtx.Id()] = c
@@ -332,7 +400,7 @@ func runOne(idx int, b *Behaviour, kind string, job *Job, rng *rand.Rand) Result
 	ctx, cancel := context.WithCancel(context.Background())
 	defer cancel()
 	r := &runner{c: c, stepWait: time.Duration(job.StepWaitMs) * time.Millisecond, retCh: make(chan string, 1),
-		cancel: cancel, pending: map[string]string{}, arrivals: map[string][]string{}}
+		cancel: cancel, pending: map[string]string{}, arrivals: map[string][]arrival{}}
 	res := Result{Idx: idx, Kind: kind, Steered: true, DivergedAt: -1, Expected: b.Result}
 
 	c.start = time.Now()
@@ -353,14 +421,50 @@ func runOne(idx int, b *Behaviour, kind string, job *Job, rng *rand.Rand) Result
 	if kind == "random" {
 		randomRun(r, b, rng)
 	} else {
+		// time-stretching of timer schedules: the steps before TimerFire are spread over [0, 0.8 T],
+		// the first step after it waits until T + 0.6 T, so that "threshold counted from the start
+		// of the call" is distinguishable from any other reference point.
+		nPre, seenTimer := 0, false
+		for _, st := range b.Steps {
+			if st.A == "TimerFire" {
+				break
+			}
+			nPre++
+		}
+		preIdx := 0
 	steps:
 		for i, s := range b.Steps {
 			r.pollReturn()
+			if stretch {
+				var at time.Duration
+				if !seenTimer && s.A != "TimerFire" {
+					preIdx++
+					at = c.threshold * 8 / 10 * time.Duration(preIdx) / time.Duration(nPre)
+				} else if seenTimer {
+					at = c.threshold + slack(c.threshold) + 30*time.Millisecond
+				}
+				if d := at - time.Since(c.start); d > 0 {
+					time.Sleep(d)
+				}
+			}
+			if s.A == "TimerFire" {
+				seenTimer = true
+			}
 			switch s.A {
 			case "PrimFinish":
 				r.pending["prim"] = s.O
 			case "SecFinish":
-				r.pending["sec"] = s.O
+				if b.Standby && s.O == "ans" {
+					// the secondary goes on to its standby select by itself: release it now
+					if !r.ensureAtExec("sec") {
+						diverge(i, "secondary not at Exec gate")
+						break steps
+					}
+					c.log("SecFinish", "o", s.O)
+					r.releaseProc("sec", s.O)
+				} else {
+					r.pending["sec"] = s.O
+				}
 			case "PrimSignal", "PrimSend":
 				want := "signalled"
 				if s.A == "PrimSend" {
@@ -383,13 +487,18 @@ func runOne(idx int, b *Behaviour, kind string, job *Job, rng *rand.Rand) Result
 					break steps
 				}
 			case "SecWaitWake":
+				if r.secAtBegin() {
+					r.releaseProc("sec", "")
+				}
 				pt, ok := r.waitArrival("sec", r.stepWait)
 				if !ok || pt != "wait."+s.R {
 					diverge(i, fmt.Sprintf("secondary first select: got %q want %q", pt, "wait."+s.R))
 					break steps
 				}
 			case "SecExecStart":
-				if p := r.isParked("sec"); strings.HasPrefix(p, "wait.") {
+				if r.secAtBegin() {
+					r.releaseProc("sec", "")
+				} else if p := r.isParked("sec"); strings.HasPrefix(p, "wait.") {
 					r.releaseProc("sec", "")
 				}
 				if !r.ensureAtExec("sec") {
